@@ -4,11 +4,44 @@ import json, os, subprocess
 HERE = os.path.dirname(os.path.dirname(os.path.abspath(__file__)))
 
 # id -> (technique, level text, level note, design ref)
+EXPL = "Generated-input search against an explicit oracle; exploration, not proof: it shows the property held on every generated case and reports how many were non-trivial. "
 CHECKS = {
+ "C01": ("proptest scripted (log p, log q) quadruples + injected acceptance draw (crafted xoshiro state) vs the stated rule; exact acceptance probabilities of the real step() by bisection over representable u on finite kernels (detailed balance, stationarity as matrix identities)",
+         EXPL + "Injection makes each step's decision a pure function the oracle predicts exactly, including u = 0, 1 ulp, exp(ratio)+-1 ulp, exact ties, +-inf/NaN log-values and all state/float type combinations; finite kernels measure A(x,y) of the real code to 2^-53.",
+         "Decision compared only where the stated grouping, the alternative association and an f64 evaluation agree (else counted ambiguous); trusts the xoshiro crafting (self-tested).",
+         "DESIGN.md §5 C01"),
+ "C05": ("proptest histories of single-chain Gibbs steps with a recording Conditional, order-agnostic sweep model; exact one-step kernel by enumerating scripted conditional outcomes on small joint tables (pi P = pi)",
+         EXPL + "The recording conditional sees every call (index, given state) the library makes; the kernel section turns 'leaves the joint invariant' into a matrix identity checked to 1e-12.",
+         "Scan order is not fixed by the statement: any permutation accepted.",
+         "DESIGN.md §5 C05"),
+ "C11": ("proptest sample arrays (structure generated, bulk from seeded PRNG) vs independent f64 split-R-hat reference; metamorphic relations (affine, permutation, cross-parameter bitwise, separation monotone/unbounded); NaN/summary fuzzing of basic_stats and RunStats",
+         EXPL + "Covers odd lengths, the 100-row switch, multimodal/trending/constant chains, NaN summaries of every length 1..256.",
+         "Within-half variance divisor (n or n-1) not fixed by the statement: both accepted; |loc|/scale <= 100; relative tolerance 1e-4*(1+|loc|/scale/10) calibrated on the pinned tree.",
+         "DESIGN.md §5 C11"),
+ "C12": ("proptest sample arrays vs independent f64 Geyer reference with a monotone interval oracle in tau space; both autocovariance paths by construction (half-lengths 94..108 sweep), metamorphic relations (reversal, permutation, affine), ESS/N calibration on iid and AR(1)",
+         EXPL + "The interval oracle is sound because tau is monotone in every autocorrelation; it needs no ambiguity skipping.",
+         "f32 error model of the autocorrelation: +-2e-5*(1+(loc/scale)^2/100); divisor n or n-1 accepted.",
+         "DESIGN.md §5 C12"),
+ "C13": ("proptest update histories fed to ChainTracker / collect_rhat / MultiChainTracker, compared with f64 batch statistics at every prefix <= 64 and geometric checkpoints; EMA recurrence of p_accept",
+         EXPL + "History-as-value: every prefix is an observation point, so off-by-one in n, n/(n-1), first-update handling and the R-hat denominators are visible for every parameter count.",
+         "Tolerance eps32*(32+4n)*(loc^2+scale^2) (worst-case linear accumulation); R-hat compared where that is < 5% of W; first p_accept value unconstrained.",
+         "DESIGN.md §5 C13"),
+ "C15": ("proptest means/SPD covariances/points/batches vs closed-form f64 densities and gradients (forward-error-bound tolerances); quadrature of exp(logp); seeded sample moments z-test",
+         EXPL + "Closed forms are written from the documentation, gradients are analytic (no autodiff), and the proposal density is additionally integrated numerically, independent of the closed form.",
+         "Tensor-based targets are compared at f32 accuracy (Tensor::from_floats stores f32 constants on every backend, as the property's domain says).",
+         "DESIGN.md §5 C15"),
  "C16": ("proptest generated weight vectors x injected uniform variate (crafted xoshiro state), f64 inverse-CDF reference + variate-grid measure check",
-         "Generated-input search: every representable boundary class of the uniform variate (0, 1 ulp, 1-ulp, +-2 ulp around each cumulative boundary) is injected into the real sample() for generated weight vectors with zeros at any position; oracle = validity of stored probabilities, bitwise logp, positive probability and f64 CDF interval of the returned index, measure of each category over a stratified variate grid. Exploration, not proof.",
+         EXPL + "Every boundary class of the uniform variate (0, 1 ulp, 1-ulp, +-2 ulp around each cumulative boundary) is injected into the real sample() for weight vectors with zeros at any position.",
          "Trusts that SmallRng is xoshiro256++ with the top-bits float conversion (self-tested at start-up); weights finite, non-negative, not all zero.",
          "DESIGN.md §5 C16"),
+ "C17": ("proptest shapes/types/special values/paths; round trip through the csv, arrow-ipc and parquet readers; fault paths (missing dir, directory, /dev/full)",
+         EXPL + "Bitwise cell comparison with pairwise distinct values makes any index/axis mix-up visible; all zero-extent shapes and both entry points are generated.",
+         "Readers are the same crate versions as the writers; an Err on a writable path is accepted (statement constrains successes only).",
+         "DESIGN.md §5 C17"),
+ "C18": ("proptest (n, d, seed) incl. 0 extents and seeds near u64::MAX: bitwise purity / prefix / seed-sensitivity oracles; pooled distribution tests (moments, KS, lag-1 correlations) at p ~ 1e-10",
+         EXPL + "Purity and prefix are exact bitwise relations; the distribution clause is a calibrated statistical test.",
+         "Statistical thresholds |z| <= 6.5, KS lambda <= 3.5; OS-seeded init tested at the same thresholds.",
+         "DESIGN.md §5 C18"),
 }
 NOT_YET = {}
 
